@@ -413,7 +413,8 @@ Section Term.
         destruct (N.eqb op 3).
         * destruct (Hlist _ cast_ranges es s cast_ranges_nf Hes Hi (le_n _)) as [Hm _].
           apply bind_nf; [exact Hm|]. intros [s1 rs] _. discriminate.
-        * destruct (Hlist _ cast_schema es s cast_schema_nf Hes Hi (le_n _)) as [Hm _].
+        * destruct (vop_of op) as [vo|]; [|discriminate].
+          destruct (Hlist _ cast_schema es s cast_schema_nf Hes Hi (le_n _)) as [Hm _].
           apply bind_nf; [exact Hm|]. intros [s1 rs] _. discriminate.
       + (* ECont *)
         apply andb_prop in Hfo as [Hfo_b Hfo_m].
